@@ -388,6 +388,82 @@ def scenario_clients_come_and_go(s, seed):
     return {"bad": bad, "log": log}
 
 
+def scenario_several_peers(s, seed):
+    """one calling context connected to several server contexts (and with incoming clients of its own): while calls to
+    one peer are in flight (the method is still running), OTHER connections of the calling context are closed - by
+    disconnect_from_peer, by the other peer stopping, by an incoming client going away. Every caller still receives
+    the outcome of its own invocation."""
+    import random
+    import dsched as _ds
+    logging.disable(logging.CRITICAL)
+    from qmi.core.context import QMI_Context
+    from qmi.core.config_defs import CfgQmi, CfgContext
+    from qmi.core.rpc import QMI_RpcObject, rpc_method
+    rng = random.Random(seed)
+
+    class Slow(QMI_RpcObject):
+        @rpc_method
+        def work(self, x, dur):
+            _ds.FAKE_TIME.sleep(dur)          # the call is in flight for `dur` virtual seconds
+            return ("done", x)
+    cfg = CfgQmi(contexts={"sa": CfgContext(tcp_server_port=5001), "sb": CfgContext(tcp_server_port=5002),
+                           "cl": CfgContext(tcp_server_port=5003)})
+    ctx = {}
+    for n in ("sa", "sb", "cl"):
+        ctx[n] = QMI_Context(n, cfg)
+        ctx[n].start()
+    ctx["sa"].make_rpc_object("w", Slow)
+    ctx["sb"].make_rpc_object("w", Slow)
+    cl = ctx["cl"]
+    cl.connect_to_peer("sa", "127.0.0.1:5001")
+    cl.connect_to_peer("sb", "127.0.0.1:5002")
+    pa, pb = cl.get_rpc_object_by_name("sa.w"), cl.get_rpc_object_by_name("sb.w")
+    inc = QMI_Context("inc", cfg)           # an incoming client of the calling context
+    inc.start()
+    inc.connect_to_peer("cl", "127.0.0.1:5003")
+    bad, log = [], []
+    victim = rng.choice(["disconnect_sb", "stop_sb", "stop_inc", "disconnect_sb+stop_inc"])
+    ncall = rng.randint(1, 3)
+
+    def call(k, nb):
+        tag = ("a", k)
+        try:
+            if nb:
+                got = pa.rpc_nonblocking.work(tag, 2.0).wait()
+            else:
+                got = pa.work(tag, 2.0)
+        except BaseException as e:  # noqa
+            got = ("EXC", repr(e)[:100])
+        if got != ("done", tag):
+            bad.append({"call": k, "got": repr(got), "closed": victim})
+    ths = [real_threading.Thread(target=call, args=(k, rng.random() < 0.5)) for k in range(ncall)]
+    for t in ths:
+        t.start()
+    _ds.FAKE_TIME.sleep(rng.choice([0.5, 1.0, 1.5]))       # the calls to sa are now in flight
+    log.append(victim)
+    if "disconnect_sb" in victim:
+        cl.disconnect_from_peer("sb")
+    if victim == "stop_sb":
+        ctx["sb"].stop()
+    if "stop_inc" in victim:
+        inc.stop()
+    for t in ths:
+        t.join()
+    # the connection to sa still works afterwards
+    try:
+        after = pa.work(("a", "after"), 0.0)
+    except BaseException as e:  # noqa
+        after = ("EXC", repr(e)[:100])
+    if after != ("done", ("a", "after")):
+        bad.append({"call": "after", "got": repr(after), "closed": victim})
+    for n, c in list(ctx.items()) + [("inc", inc)]:
+        try:
+            c.stop()
+        except BaseException:  # noqa
+            pass
+    return {"bad": bad, "log": log}
+
+
 def peers_impl(ops):
     """H1: the real _SocketManager.add_incoming_connection / remove_peer_connection on stand-in sockets."""
     import qmi.core.messaging as M
@@ -541,6 +617,19 @@ def run(ck):
         for b in res["obs"]["bad"][:1]:
             ck.report("oracle:comego:wrong-outcome", "after clients connected / disconnected a caller did not get the outcome of its own invocation: %s" % b,
                       {"comego_seed": ck.seed * 53 + i, "schedule": res.get("choices"), "strategy": "random" if i % 2 else "fifo", "detail": b})
+    # ---- part E: several connections of the calling context; others close while calls are in flight
+    ne = 24 if ck.tier == "quick" else 600
+    jobs = [(scenario_several_peers, (ck.seed * 61 + i,), dict(strategy="random" if i % 2 else "fifo", seed=ck.seed * 67 + i)) for i in range(ne)]
+    for i, res in enumerate(dsched.run_forked(jobs, nproc=16, wall_timeout=120)):
+        ck.note_case(("peers", ck.seed, i, tuple(res.get("choices") or ())), True)
+        ck.count("several-peers:" + res["status"])
+        if res["status"] != "ok":
+            ck.report("oracle:several-peers:%s" % res["status"], "another connection closes while calls are in flight: %s" % str(res.get("trace") or res.get("info"))[:400],
+                      {"peers_seed": ck.seed * 61 + i, "schedule": res.get("choices")})
+            continue
+        for b in res["obs"]["bad"][:1]:
+            ck.report("oracle:several-peers:wrong-outcome", "while ANOTHER connection of the calling context was closed a caller did not get the "
+                      "outcome of its own invocation: %s" % b, {"peers_seed": ck.seed * 61 + i, "schedule": res.get("choices"), "detail": b})
     return ck.finish("A: random hops incl. forged names (each distinct); B: generated values through direct/local/remote x blocking/non-blocking; "
                      "C: concurrent callers under seeded schedules")
 
@@ -551,6 +640,10 @@ def replay(rep):
     if "hop" in c:
         print("hop replay needs the payload; key:", c)
         return 1
+    if "peers_seed" in c:
+        res = dsched.run_forked([(scenario_several_peers, (c["peers_seed"],), dict(strategy="replay", schedule=list(c.get("schedule") or [])))], nproc=1)[0]
+        print(res["status"], (res.get("obs") or {}).get("bad"))
+        return 1 if (res["status"] != "ok" or res["obs"]["bad"]) else 0
     if "comego_seed" in c:
         res = dsched.run_forked([(scenario_clients_come_and_go, (c["comego_seed"],), dict(strategy="replay", schedule=list(c.get("schedule") or [])))], nproc=1)[0]
         print(res["status"], (res.get("obs") or {}).get("bad"))
